@@ -19,7 +19,7 @@ tensor made isometric must be one whose outer size the guard bounded.
 import ast
 
 from ..framework import RuleResult, Finding
-from ..model import src_of
+from ..model import src_of, dotted
 from .. import AnalysisError
 
 SITES = [
@@ -304,4 +304,97 @@ def rule_cap_guard(ctx):
                     _check_shortcut(r, f, node, compares, defs, construct, where)
     r.floor(n, 4, "max_bond comparison guards")
     r.floor(nshort, 1, "gauge-only shortcut")
+    return r
+
+
+
+def rule_pair_predicate(ctx):
+    r = RuleResult(
+        "pair-predicate",
+        "a condition over a pair of tensors that repeats one conjunct / disjunct verbatim tests one member twice and the other never "
+        "(the skip-compression predicate of the compressed contraction looks at *both* tensors): no boolean operation in quimb.tensor "
+        "has two structurally identical operands",
+    )
+    n = 0
+    for g in ctx.prog.all_functions(nested=True):
+        if g.is_alias or isinstance(g.node, ast.Lambda) or not (g.module.name.startswith("quimb.tensor") or ctx.is_control(g)):
+            continue
+        for x in _own_walk_all(g.node):
+            if isinstance(x, ast.BoolOp):
+                if not ctx.is_control(g):
+                    n += 1
+                dumps = [ast.dump(v) for v in x.values]
+                dup = next((v for v, d in zip(x.values, dumps) if dumps.count(d) > 1), None)
+                if dup is not None:
+                    names = sorted({y.id for y in ast.walk(dup) if isinstance(y, ast.Name)})
+                    r.bad(Finding("pair-predicate", g.qualname,
+                                  f"`{src_of(dup)[:70]}` appears twice in `{src_of(x)[:40]}...` (line {x.lineno}): one operand of the pair is tested twice, "
+                                  f"its partner never — the predicate also holds when the partner does not satisfy it",
+                                  where=f"{g.module.relpath}:{x.lineno}", operand="duplicate:" + ",".join(names)[:40]))
+    if not r.findings:
+        r.ok("quimb.tensor", sample={"boolean operations scanned": n, "duplicated operands": 0})
+    r.floor(n, 300, "boolean operations in quimb.tensor")
+    r.need_controls(1)
+    return r
+
+
+def _own_walk_all(fnode):
+    """nodes of a function without descending into nested function definitions (they are visited on their own)"""
+    stack = list(ast.iter_child_nodes(fnode))
+    while stack:
+        x = stack.pop()
+        yield x
+        if isinstance(x, (ast.FunctionDef, ast.AsyncFunctionDef, ast.Lambda)):
+            continue
+        stack.extend(ast.iter_child_nodes(x))
+
+
+def rule_opts_delivered(ctx):
+    r = RuleResult(
+        "opts-delivered",
+        "an option dict that a routine of the compressed-contraction family completes (rebinds to a fresh dict and stores defaults / "
+        "exclusions into) is handed on afterwards: a dict that is written and never read again means the caller's options — and the "
+        "entries just added — silently never reach the callee",
+    )
+    n = 0
+    for g in ctx.prog.all_functions(nested=False):
+        if g.is_alias or isinstance(g.node, ast.Lambda) or not (g.module.name.startswith("quimb.tensor") or ctx.is_control(g)):
+            continue
+        walk = list(ast.walk(g.node))
+        for a in walk:
+            if not (isinstance(a, ast.Assign) and len(a.targets) == 1 and isinstance(a.targets[0], ast.Name)):
+                continue
+            name = a.targets[0].id
+            if not (name.endswith("opts") or name.endswith("kwargs")):
+                continue
+            v = a.value
+            fresh = isinstance(v, ast.Dict) or (isinstance(v, ast.Call) and (dotted(v.func) or "").split(".")[-1] in ("ensure_dict", "dict")) \
+                or (isinstance(v, ast.BinOp) and isinstance(v.op, ast.BitOr))
+            if not fresh:
+                continue
+            # writes into it after the rebinding
+            writes = [x for x in walk if isinstance(x, ast.stmt) and x.lineno > a.lineno and (
+                (isinstance(x, ast.Assign) and any(isinstance(t, ast.Subscript) and isinstance(t.value, ast.Name) and t.value.id == name for t in x.targets))
+                or (isinstance(x, ast.Expr) and isinstance(x.value, ast.Call) and isinstance(x.value.func, ast.Attribute) and x.value.func.attr in ("setdefault", "update")
+                    and isinstance(x.value.func.value, ast.Name) and x.value.func.value.id == name))]
+            if not writes:
+                continue
+            if not ctx.is_control(g):
+                n += 1
+            last = max(w.end_lineno for w in writes)
+            in_loop = any(isinstance(l, (ast.For, ast.While)) and any(y is writes[-1] for y in ast.walk(l)) and
+                          any(isinstance(y, ast.Name) and y.id == name and isinstance(y.ctx, ast.Load) and not any(y is z for w in writes for z in ast.walk(w)) for y in ast.walk(l))
+                          for l in walk)
+            nested_use = any(isinstance(h, (ast.FunctionDef, ast.Lambda)) and h is not g.node and any(isinstance(y, ast.Name) and y.id == name for y in ast.walk(h)) for h in walk)
+            reads_after = [y for y in walk if isinstance(y, ast.Name) and y.id == name and isinstance(y.ctx, ast.Load) and y.lineno > last]
+            construct = f"{g.qualname}:{name}"
+            if reads_after or in_loop or nested_use:
+                r.ok(construct, sample={"function": g.qualname, "option dict": name, "handed on": True}, nontrivial=False)
+            else:
+                r.bad(Finding("opts-delivered", g.qualname,
+                              f"`{name}` is completed (line {a.lineno}: `{src_of(a)[:50]}`; last write line {last}) and never read afterwards: the options the caller "
+                              f"passed as `{name}` and the entries added here do not reach any callee",
+                              where=f"{g.module.relpath}:{a.lineno}", operand=name))
+    r.floor(n, 20, "option dicts completed inside quimb.tensor routines")
+    r.need_controls(1)
     return r
